@@ -14,7 +14,7 @@ pub fn mon() -> Mon {
         run,
         finish,
         replay,
-        rule: "Encoder catalogue (32 call forms): every value of every small parameter, every 7-bit destination and own address, 128x128 address pairs on selected forms, every body length 0..255 on the variable-body forms, plus seeded random argument products; each output's last byte is compared with an independent bit-serial CRC-8 (poly 0x07, init 0) of the preceding bytes and the CRC of the whole packet with 0. Non-trivial = the encoder returned Ok(n) with n >= 10 (a packet exists to judge); distinct = distinct output byte strings.",
+        rule: "Encoder catalogue (32 call forms) plus the responses process_packet encodes for forged requests (every instance ID, answerable and unsupported commands): every value of every small parameter, every 7-bit destination and own address, 128x128 address pairs on selected forms, every body length 0..255 on the variable-body forms, plus seeded random argument products; each output's last byte is compared with an independent bit-serial CRC-8 (poly 0x07, init 0) of the preceding bytes and the CRC of the whole packet with 0. Non-trivial = the encoder returned Ok(n) with n >= 10 (a packet exists to judge); distinct = distinct output byte strings.",
         assumptions: &[
             "reference CRC-8 self-tested against the CRC-8/SMBUS check value 0xF4 at start-up",
             "7-bit own and destination addresses",
@@ -76,7 +76,27 @@ fn run(cfg: &RunCfg) -> Report {
     let mut rep = Report::new();
     let p = plan(cfg);
     for_each_call(cfg, "c03", &p, &mut |c, _| check(c, &mut rep));
+    // the packets process_packet encodes are encoded packets too
+    let n = if cfg.is_small() { 200 } else { cfg.pick(40_000, 4_000_000) };
+    let mut rrep = Report::new();
+    for_each_response(cfg, "c03-responder", n, &mut |req, resp, who, rep| check_response(req, resp, who, rep), &mut rrep);
+    rep.merge(rrep);
     rep
+}
+
+pub fn check_response(req: &[u8], resp: &[u8], who: &crate::libapi::CtxCfg, rep: &mut Report) {
+    rep.eval();
+    let n = resp.len();
+    rep.class("responder:response");
+    rep.nontrivial(hash_bytes(0x33, resp));
+    let want = crc8(&resp[..n - 1]);
+    if want != resp[n - 1] {
+        rep.violation(
+            &format!("process_packet-response:cmd-{}:pec-mismatch", if req[10] <= 0x14 { format!("{:#04x}", req[10]) } else { "unknown".into() }),
+            || format!("response {} to request {}: last byte {:#04x} != CRC-8 {:#04x} of the preceding bytes", crate::json::hex(resp), crate::json::hex(req), resp[n - 1], want),
+            || format!("resp|{}|{}", who.encode(), crate::json::hex(req)),
+        );
+    }
 }
 
 fn finish(rep: &mut Report, cfg: &RunCfg) {
@@ -84,6 +104,9 @@ fn finish(rep: &mut Report, cfg: &RunCfg) {
 }
 
 fn replay(case: &str, rep: &mut Report) -> Result<(), String> {
+    if let Some(rest) = case.strip_prefix("resp|") {
+        return replay_response(rest, rep, &mut |q, r, w, rep| check_response(q, r, w, rep));
+    }
     let c = Call::decode(case).ok_or("cannot parse case")?;
     check(&c, rep);
     Ok(())
